@@ -19,11 +19,11 @@ RULE = ('seeded acyclic workbooks (vp.wbgen.dag) x choice of outputs (1-3 formul
         '(shape, inputs, outputs, configuration).')
 BUDGET = {'quick': 30, 'thorough': 300}
 FLOORS = {
-    'quick': {'trims': 150, 'rounds': 600, 'output_compares': 2500, 'with_range_input': 20,
-              'with_buried_input': 10, 'output_is_input': 10, 'output_without_input': 10,
-              'cfg:mem': 40, 'cfg:xlsx': 30, 'reloaded': 40, 'trim_before_any_evaluate': 30,
-              'rounds_that_changed_an_output': 200, 'real_book_trims': 25,
-              'refused_trims_before_the_real_one': 20, 'input_and_output_without_dependants_listed_first': 10},
+    'quick': {'trims': 60, 'rounds': 240, 'output_compares': 1000, 'with_range_input': 8,
+              'with_buried_input': 4, 'output_is_input': 4, 'output_without_input': 4,
+              'cfg:mem': 15, 'cfg:xlsx': 10, 'reloaded': 15, 'trim_before_any_evaluate': 10,
+              'rounds_that_changed_an_output': 80, 'real_book_trims': 5,
+              'refused_trims_before_the_real_one': 8, 'input_and_output_without_dependants_listed_first': 4},
     'thorough': {'trims': 3500, 'rounds': 14000, 'with_range_input': 500, 'with_buried_input': 250,
                  'reloaded': 1000},
 }
